@@ -185,6 +185,7 @@ func (be *BasisExtender) ShallowCopy() *BasisExtender {
 // ModUpQtoP extends the RNS basis of a polynomial from Q to QP.
 // Given a polynomial with coefficients in basis {Q0,Q1....Qlevel},
 // it extends its basis from {Q0,Q1....Qlevel} to {Q0,Q1....Qlevel,P0,P1...Pj}
+// Caution: the returned values are not reduced (see ModUpExact; they are in [0, 3P-1]).
 func (be *BasisExtender) ModUpQtoP(levelQ, levelP int, polQ, polP Poly) {
 
 	ringQ := be.ringQ.AtLevel(levelQ)
@@ -202,6 +203,7 @@ func (be *BasisExtender) ModUpQtoP(levelQ, levelP int, polQ, polP Poly) {
 // ModUpPtoQ extends the RNS basis of a polynomial from P to PQ.
 // Given a polynomial with coefficients in basis {P0,P1....Plevel},
 // it extends its basis from {P0,P1....Plevel} to {Q0,Q1...Qj}
+// Caution: the returned values are not reduced (see ModUpExact; they are in [0, 3Q-1]).
 func (be *BasisExtender) ModUpPtoQ(levelP, levelQ int, polP, polQ Poly) {
 
 	ringQ := be.ringQ.AtLevel(levelQ)
@@ -278,7 +280,8 @@ func (be *BasisExtender) ModDownQPtoP(levelQ, levelP int, p1Q, p1P, p2P Poly) {
 }
 
 // ModUpExact takes p1 mod Q and switches its basis to P, returning the result on p2.
-// Caution: values are not centered and returned values are in [0, 2P-1].
+// Caution: values are not centered and returned values are in [0, 3P-1] if p1 has at most
+// 8 moduli of at most 61 bits (in general they are smaller than (2 + len(p1)*max(Qi)/2^64)*P).
 func ModUpExact(p1, p2 [][]uint64, ringQ, ringP *Ring, MUC ModUpConstants) {
 
 	var v, rlo, rhi [8]uint64
@@ -593,7 +596,8 @@ func reconstructRNS(start, end, x int, p [][]uint64, v *[8]uint64, y0, y1, y2, y
 	v[7] = uint64(vi[7])
 }
 
-// Caution, returns the values in [0, 2q-1]
+// Caution, returns the values in [0, 3q-1] if level < 8 and the source moduli have at most 61 bits
+// (in general they are smaller than (2 + (level+1)*max(Qi)/2^64)*q).
 func multSum(level int, res, rlo, rhi, v *[8]uint64, y0, y1, y2, y3, y4, y5, y6, y7 *[32]uint64, q, qInv uint64, vtimesqmodp, qoverqimodp []uint64) {
 
 	var mhi, mlo, c, hhi, qqip uint64
